@@ -476,6 +476,36 @@ def relay_variants(scens, tier, rng, every=4):
     return out
 
 
+def two_conn_variants(scens, tier, rng, every=5):
+    """clones of direct-topology scenarios with the calls spread over TWO client connections to the same server
+    (one Serve each): both connections use the same stream ids at the same time, so anything the server (or
+    the harness-independent client package state) shares between connections shows up as a foreign event"""
+    import copy
+    out = []
+    k = 0
+    for s in scens:
+        if s.get('rawsrv') or s.get('rawcli') or s.get('runner') or s.get('topo') or s.get('manual') or s.get('ncli'):
+            continue
+        ops = s['steps']
+        if any(st.get('op') in ('stuck', 'fault', 'unfault', 'arm', 'rel', 'dlv', 'inj', 'auto') for st in ops):
+            continue
+        calls = sorted({st['c'] for st in ops if st.get('op') in ('ucall', 'sopen')})
+        if len(calls) < 2:
+            continue
+        k += 1
+        if tier == 'quick' and k % every:
+            continue
+        c = copy.deepcopy(s)
+        c['ncli'] = 2
+        c['tag'] = 'two connections: ' + c.get('tag', '')
+        where = {cc: 1 + (i % 2) for i, cc in enumerate(calls)}
+        for st in c['steps']:
+            if st.get('op') in ('ucall', 'sopen'):
+                st['conn'] = where[st['c']]
+        out.append(c)
+    return out
+
+
 def generate(prop, tier, seed, genfn=None, first=1):
     _late()
     from . import props
@@ -491,6 +521,9 @@ def generate(prop, tier, seed, genfn=None, first=1):
     scens = g(tier, rng)
     if prop in ('C01', 'C02', 'C03', 'C04') and genfn is None and not props.PROPS[prop].get('no_relay'):
         scens = scens + relay_variants(scens, tier, rng, every=4 if prop != 'C04' else 12)
+    if prop in ('C01', 'C02', 'C03', 'C05', 'C07', 'C11') and (genfn is None or genfn.__name__ == prop.lower()):
+        base = [s for s in scens if not s.get('topo')]
+        scens = scens + two_conn_variants(base, tier, rng)
     for i, s in enumerate(scens):
         s['sc'] = first + i
         s.setdefault('steps', [])
